@@ -1605,18 +1605,12 @@ def rule_R30(text, applied):
         cob = op + 1 + cm.end() - 1
         ccb = match_close(m_text, cob)
         body = text[cob + 1:ccb]
-        mb = mask(body)
-        d_, last = 0, -1
-        for q, ch in enumerate(mb):
-            if ch in "([{":
-                d_ += 1
-            elif ch in ")]}":
-                d_ -= 1
-            elif ch == ";" and d_ == 0:
-                last = q
-        stm, tail_e = body[:last + 1], body[last + 1:].strip()
-        if tail_e != acc or re.search(r"\breturn\b", mask(stm)):
-            raise ExtractError("R30: the fold closure must end in its accumulator and not return early (outside the subset)")
+        tm_ = re.search(r"(?:^|[;}\s])(" + re.escape(acc) + r")\s*$", mask(body))
+        if not tm_:
+            raise ExtractError("R30: the fold closure must end in its accumulator (outside the subset)")
+        stm = body[:tm_.start(1)]
+        if re.search(r"\breturn\b", mask(stm)):
+            raise ExtractError("R30: the fold closure must not return early (outside the subset)")
         it = m.group(1)
         n = cnt
         head = f"{{ let mut {acc} = {init}; let mut fi{n}_: usize = 0; while fi{n}_ < {it}.len() {{ let {x} = {it}[fi{n}_]; fi{n}_ += 1;"
